@@ -9,7 +9,7 @@
    what the diff entry od (if any) says about the target entry ot (if any) — Ok None = absent
    afterwards, Err = refused (entry_apply, unfolded by C04_entry_table).
    cfind / cdfind … look a key up in a map (a list with pairwise distinct keys). *)
-From FB Require Import C04.Model C04.Text C04.Theory C04.Theory2 C04.TextTheory C04.TextTheory2 C04.TextTheory3.
+From FB Require Import C04.Model C04.Text C04.Theory C04.Theory2 C04.TextTheory C04.TextTheory2 C04.TextTheory3 C04.TextTheory4.
 
 (* ---------------- apply_diff_option: the complete table ---------------- *)
 Theorem C04_option_ok_iff : forall (d : action str) (t r : option str),
@@ -228,10 +228,38 @@ Theorem C04_text_inverse_refuted :
 Proof. exact text_inverse_refuted. Qed.
 Print Assumptions C04_text_inverse_refuted.
 
+(* ---------------- the comment of the mapping set itself has no text form ---------------- *)
+(* a diff read from text never carries a namespace action or a mappings-level comment action *)
+Theorem C04_read_no_top : forall t d, read t = Ok d -> d_info d = ANone /\ d_doc d = ANone.
+Proof. exact read_no_top. Qed.
+Print Assumptions C04_read_no_top.
+
+(* hence equal top-level comments are NECESSARY for the literal inverse law through the text form … *)
+Theorem C04_text_inverse_needs_same_top : forall A B, text_inverse_law A B -> ms_doc A = ms_doc B.
+Proof. exact text_inverse_needs_same_top. Qed.
+Print Assumptions C04_text_inverse_needs_same_top.
+
+(* … and without that hypothesis everything EXCEPT the top-level comment arrives: the result is B with
+   A's top-level comment (text_inverse_law_top; with ms_doc A = ms_doc B this is text_inverse_law) *)
+Theorem C04_text_inverse_modulo_top : forall A B,
+  text_hyps_top A B -> f3_class A B = false -> f4_class A B = false ->
+  exists d d' r, diff A B = Ok d /\ read (print d) = Ok d'
+                 /\ apply_to d' A (nth 1 (ms_ns A) []) = Ok r /\ mequiv r (set_doc B (ms_doc A)).
+Proof. exact text_inverse_modulo_top. Qed.
+Print Assumptions C04_text_inverse_modulo_top.
+
+(* a witness: in memory the inverse law holds for it, through the text it does not *)
+Theorem C04_text_top_comment_refuted :
+  exists A B, text_hyps_top A B /\ f3_class A B = false /\ f4_class A B = false
+              /\ ms_doc A <> ms_doc B /\ inverse_law A B /\ ~ text_inverse_law A B.
+Proof. exact text_top_comment_refuted. Qed.
+Print Assumptions C04_text_top_comment_refuted.
+
 (* the hypotheses as the single booleans that the correspondence run evaluates on every generated pair *)
 Theorem C04_hyps_decidable : forall A B,
-  (inverse_hyps_b A B = true <-> inverse_hyps A B) /\ (text_hyps_b A B = true <-> text_hyps A B).
-Proof. exact (fun A B => conj (inverse_hyps_b_iff A B) (text_hyps_b_iff A B)). Qed.
+  (inverse_hyps_b A B = true <-> inverse_hyps A B) /\ (text_hyps_b A B = true <-> text_hyps A B)
+  /\ (text_hyps_top_b A B = true <-> text_hyps_top A B).
+Proof. exact (fun A B => conj (inverse_hyps_b_iff A B) (conj (text_hyps_b_iff A B) (text_hyps_top_b_iff A B))). Qed.
 Print Assumptions C04_hyps_decidable.
 
 (* non-vacuity *)
